@@ -187,7 +187,9 @@ func rtRun(src, cfgs string, writers bool) string {
 	if len(cmds) == 0 {
 		return "skip:empty"
 	}
-	k0 := skCmds(cmds)
+	// the printer always writes ';;' after the last case item: whether the source had it is not part of the program
+	lastBreak := func(k string) string { return strings.ReplaceAll(k, "0})}", "1})}") }
+	k0 := lastBreak(skCmds(cmds))
 	var idx []int
 	if cfgs == "all" {
 		for i := 0; i < 256; i++ {
@@ -220,7 +222,7 @@ func rtRun(src, cfgs string, writers bool) string {
 		}
 		// both are reported: a printed text that is another program and is not a fix-point either
 		var kinds []string
-		if k := skCmds(cmds2); k != k0 {
+		if k := lastBreak(skCmds(cmds2)); k != k0 {
 			kinds = append(kinds, "different-program")
 		}
 		text2, _ := printAll(cfg, cmds2)
